@@ -58,6 +58,13 @@ CLAIMED = {
          "compiled equals the specification's), c09_band_channel (all 65536 frequencies). PARTIAL for multi-word chains: covered by c09_total "
          "and the model-implementation correspondence (per-antenna words, vendor namespaces), no functional spec theorem.",
          "Rocq refinement proof by induction over the field list; differential correspondence"),
+ "C10": ("Theorems c10_layout (for ALL 2^11 selections of carried fields and all values the generator emits exactly the rendered header), "
+         "c10_valid_header (version 0, length field = bytes produced, present word, every field little-endian at its naturally aligned "
+         "offset, <= 128 bytes), c10_roundtrip (decoding it - whatever follows it - returns the supplied values, via C09's single-word "
+         "theorem), c10_classify_invariant (prepending it, with an FCS when announced, leaves the classification unchanged up to the "
+         "radiotap/FCS flags). The generator is compared byte for byte with the library on all 2^11 subsets x boundary and random values, "
+         "and the generated bytes are decoded again by the library.",
+         "Rocq algebraic + round-trip proofs by induction over the field list; differential correspondence"),
  "C11": ("Theorems c11_crc_exact (the C loop with constants re-read from the source computes the IEEE 802.3 32-stage division "
          "register, for every message and every in-bounds read oracle), c11_tbl_equiv (an independent table-driven CRC derived from G), "
          "c11_fcs_bytes, c11_verify_iff, c11_short_no. Compared with the library and with zlib on exhaustive short strings, the "
